@@ -51,7 +51,12 @@ theorem FetchesOK.congr {s s' : State} (h : s'.peers.map fcore = s.peers.map fco
     obtain ⟨p, hp, e⟩ := exists_of_map_eq h hp'
     simp only [fcore, Prod.mk.injEq] at e
     exact ⟨p, hp, e.2.2⟩
-  refine ⟨?_, ?_, ?_, ?_, ?_⟩
+  have key2 : ∀ p' ∈ s'.peers, ∃ p ∈ s.peers, p.fetches = p'.fetches ∧ p.conn = p'.conn := by
+    intro p' hp'
+    obtain ⟨p, hp, e⟩ := exists_of_map_eq h hp'
+    simp only [fcore, Prod.mk.injEq] at e
+    exact ⟨p, hp, e.2.2, e.1⟩
+  refine ⟨?_, ?_, ?_, ?_, ?_, ?_⟩
   · rw [conns_of_fcore h]; exact ok.connNodup
   · intro p' hp' f hf
     obtain ⟨p, hp, e⟩ := key p' hp'
@@ -59,6 +64,11 @@ theorem FetchesOK.congr {s s' : State} (h : s'.peers.map fcore = s.peers.map fco
   · intro p' hp'
     obtain ⟨p, hp, e⟩ := key p' hp'
     exact e ▸ ok.uidNodup p hp
+  · intro p' hp' q' hq' f hf g hg hu
+    obtain ⟨p, hp, e, ec⟩ := key2 p' hp'
+    obtain ⟨q, hq, e2, ec2⟩ := key2 q' hq'
+    rw [← ec, ← ec2]
+    exact ok.uidGlobal p hp q hq f (e ▸ hf) g (e2 ▸ hg) hu
   · intro p' hp' f hf
     obtain ⟨p, hp, e⟩ := key p' hp'
     exact ok.fidOk p hp f (e ▸ hf)
